@@ -66,6 +66,7 @@ def st_bus(tier):
         nops = draw(st.integers(2, 14 if tier == "quick" else 30))
         ops = []
         ios = []
+        fixed = []
         for _ in range(nops):
             k = draw(st.integers(0, 9))
             name = draw(st.sampled_from(NAMES))
@@ -79,9 +80,16 @@ def st_bus(tier):
                     io_o, io_s = draw(st.sampled_from(ios))
                     og = max(0, draw(st.sampled_from([io_o, io_o - sz // 2, io_o + io_s - sz, io_o + io_s - sz // 2, io_o + io_s, io_o - sz])))
                     og &= (1 << aw) - 1
+                elif fixed and draw(st.integers(0, 2)) == 0:
+                    # inside an earlier region (nested / overlapping requests, linker-only regions lying inside ordinary ones)
+                    fo, fs = draw(st.sampled_from(fixed))
+                    og = (fo + draw(st.sampled_from([fs // 2, fs // 4, 3 * fs // 4, 0]))) & ((1 << aw) - 1)
+                    sz = max(4, draw(st.sampled_from([fs // 4, fs // 8, fs // 2, sz])))
                 else:
                     og = draw(origin(aw))
-                ops.append(["fix", name, og, sz, draw(st.booleans()), draw(st.integers(0, 7)) == 0])
+                linker = draw(st.integers(0, 7 if not fixed else 3)) == 0
+                ops.append(["fix", name, og, sz, draw(st.booleans()), linker])
+                fixed.append([og, sz])
             elif k in (4, 5):
                 ops.append(["alloc", name, draw(sizes), draw(st.booleans())])
             elif k in (6, 7):
